@@ -208,7 +208,9 @@ yield1:
 		ctx->bsz *= 2U;
 	}
 	/* read CHUNK_SIZE bytes */
-	bno += (nrd = read(ctx->fd, bno, CHUNK_SIZE));
+	if (LIKELY((nrd = read(ctx->fd, bno, CHUNK_SIZE)) > 0)) {
+		bno += nrd;
+	}
 	/* if we came from yield2 then off == __ctx->bno, and if we
 	 * read 0 or less bytes then off >= __ctx->bno + nrd, so we
 	 * can simply use that compact expression if the buffer has no
